@@ -15,7 +15,7 @@ import json, os, re, subprocess, sys, shutil, time
 
 SRC = "/repo/src"
 SKIP_DIRS = ("neon", "wasm32")
-SKIP_FILES = ("testing.rs", "verif.rs", "errors.rs", "lib.rs", "cpu_extensions.rs", "image_crate.rs")
+SKIP_FILES = ("testing.rs", "verif.rs", "errors.rs", "lib.rs", "cpu_extensions.rs", "image_crate.rs", "threading.rs", "wasm32_utils.rs", "neon_utils.rs")
 
 OPS = [
     ("rel_lt", re.compile(r" < "), " <= "),
@@ -74,15 +74,19 @@ def candidates(path):
     return out
 
 
-def gen(outp, per_file):
+def gen(outp, per_file, skip_file=None):
     allc = []
+    used = set()
+    if skip_file:
+        for r in json.load(open(skip_file)):
+            used.add((r["file"], r["line"]))
     for root, dirs, files in os.walk(SRC):
         if any(s in root for s in SKIP_DIRS):
             continue
         for f in sorted(files):
             if not f.endswith(".rs") or f in SKIP_FILES or f[:-3] in SKIP_DIRS:
                 continue
-            c = candidates(os.path.join(root, f))
+            c = [x for x in candidates(os.path.join(root, f)) if (x["file"], x["line"]) not in used]
             if not c:
                 continue
             # choose per_file candidates: round-robin over operator kinds, evenly spread in the file
@@ -97,7 +101,7 @@ def gen(outp, per_file):
                 r += 1
                 if byop[o]:
                     lst = byop[o]
-                    x = lst.pop(len(lst) // 2)
+                    x = lst.pop((len(lst) // 3) if skip_file else (len(lst) // 2))
                     if not any(p["line"] == x["line"] for p in picked):
                         picked.append(x)
             allc += picked
@@ -206,6 +210,6 @@ def run(copy, mutants, k, n, results):
 
 if __name__ == "__main__":
     if sys.argv[1] == "gen":
-        gen(sys.argv[2], int(sys.argv[3]) if len(sys.argv) > 3 else 3)
+        gen(sys.argv[2], int(sys.argv[3]) if len(sys.argv) > 3 else 3, sys.argv[4] if len(sys.argv) > 4 else None)
     elif sys.argv[1] == "run":
         run(sys.argv[2], sys.argv[3], int(sys.argv[4]), int(sys.argv[5]), sys.argv[6])
